@@ -46,6 +46,8 @@ pub enum Kind {
     Cw20SpenderAllowances,
     /// the allowance listings after `migrate` from the pre-0.14 layout (no per-spender index)
     Cw20Migrated { by_spender: bool },
+    /// same, starting from another stored cw2 version
+    Cw20MigratedFrom { by_spender: bool, from: &'static str },
     /// same, but migrated at a later block at which some AtHeight / AtTime allowances have expired
     Cw20MigratedLate { by_spender: bool },
     /// the allowance listings after a subset of mutual grants was fully revoked (and some re-granted)
@@ -141,6 +143,14 @@ pub fn listings() -> Vec<Listing> {
         l("cw20-base/AllSpenderAllowances", Cw20SpenderAllowances, "all_spender_allowances", "allowances", Some("owner"), "start_after", false, false, 0),
         l("cw20-base/AllAllowances[after-migration-from-0.13]", Cw20Migrated { by_spender: false }, "all_allowances", "allowances", Some("spender"), "start_after", false, false, 0),
         l("cw20-base/AllSpenderAllowances[after-migration-from-0.13]", Cw20Migrated { by_spender: true }, "all_spender_allowances", "allowances", Some("owner"), "start_after", false, false, 0),
+        l("cw20-base/AllAllowances[after-migration-from-0.10.3]", Cw20MigratedFrom { by_spender: false, from: "0.10.3" }, "all_allowances", "allowances", Some("spender"), "start_after", false, false, 0),
+        l("cw20-base/AllSpenderAllowances[after-migration-from-0.10.3]", Cw20MigratedFrom { by_spender: true, from: "0.10.3" }, "all_spender_allowances", "allowances", Some("owner"), "start_after", false, false, 0),
+        l("cw20-base/AllAllowances[after-migration-from-0.10.0-soon4]", Cw20MigratedFrom { by_spender: false, from: "0.10.0-soon4" }, "all_allowances", "allowances", Some("spender"), "start_after", false, false, 0),
+        l("cw20-base/AllSpenderAllowances[after-migration-from-0.10.0-soon4]", Cw20MigratedFrom { by_spender: true, from: "0.10.0-soon4" }, "all_spender_allowances", "allowances", Some("owner"), "start_after", false, false, 0),
+        l("cw20-base/AllAllowances[after-migration-from-0.9.1]", Cw20MigratedFrom { by_spender: false, from: "0.9.1" }, "all_allowances", "allowances", Some("spender"), "start_after", false, false, 0),
+        l("cw20-base/AllSpenderAllowances[after-migration-from-0.9.1]", Cw20MigratedFrom { by_spender: true, from: "0.9.1" }, "all_spender_allowances", "allowances", Some("owner"), "start_after", false, false, 0),
+        l("cw20-base/AllAllowances[after-migration-from-0.2.3]", Cw20MigratedFrom { by_spender: false, from: "0.2.3" }, "all_allowances", "allowances", Some("spender"), "start_after", false, false, 0),
+        l("cw20-base/AllSpenderAllowances[after-migration-from-0.2.3]", Cw20MigratedFrom { by_spender: true, from: "0.2.3" }, "all_spender_allowances", "allowances", Some("owner"), "start_after", false, false, 0),
         l("cw20-base/AllAllowances[after-late-migration-with-expired-allowances]", Cw20MigratedLate { by_spender: false }, "all_allowances", "allowances", Some("spender"), "start_after", false, false, 0),
         l("cw20-base/AllSpenderAllowances[after-late-migration-with-expired-allowances]", Cw20MigratedLate { by_spender: true }, "all_spender_allowances", "allowances", Some("owner"), "start_after", false, false, 0),
         l("cw20-base/AllAllowances[after-revocations]", Cw20Revoked { by_spender: false }, "all_allowances", "allowances", Some("spender"), "start_after", false, false, 0),
@@ -365,8 +375,9 @@ impl Listing {
             Kind::Cw20OwnerAllowances => cw20_owner_allowances(n, true),
             Kind::Cw20OwnerAllowancesNoBalance => cw20_owner_allowances(n, false),
             Kind::Cw20SpenderAllowances => cw20_spender_allowances(n),
-            Kind::Cw20Migrated { by_spender } => cw20_migrated(n, by_spender, false),
-            Kind::Cw20MigratedLate { by_spender } => cw20_migrated(n, by_spender, true),
+            Kind::Cw20Migrated { by_spender } => cw20_migrated(n, by_spender, false, "0.13.4"),
+            Kind::Cw20MigratedFrom { by_spender, from } => cw20_migrated(n, by_spender, false, from),
+            Kind::Cw20MigratedLate { by_spender } => cw20_migrated(n, by_spender, true, "0.13.4"),
             Kind::Cw20Revoked { by_spender } => cw20_revoked(n, by_spender),
             Kind::Cw20Drawn { by_spender } => cw20_drawn(n, by_spender),
             Kind::Cw1Allowances(p, at) => cw1_allowances(n, p, at),
@@ -582,7 +593,7 @@ fn wipe_namespace(w: &mut World, contract: &str, ns: &str) -> usize {
 /// each grant to the same seven spenders, the listed one sorting last within each owner's group
 /// (AllSpenderAllowances{spender} has n items), so that owners with several spenders lie across
 /// every multiple of 30 in the (owner, spender) key order.
-fn cw20_migrated(n: usize, by_spender: bool, late: bool) -> Result<Built, String> {
+fn cw20_migrated(n: usize, by_spender: bool, late: bool, from: &str) -> Result<Built, String> {
     // late: expiries shortly after the grants; the migration runs after them (the cw20 listings and
     // the Allowance point query show an allowance whether expired or not)
     let cw20_expiry = |i: usize| if late { cw20_near_expiry(i) } else { cw20_expiry(i) };
@@ -617,7 +628,7 @@ fn cw20_migrated(n: usize, by_spender: bool, late: bool) -> Result<Built, String
     }
     {
         let inst = b.w.contracts.get_mut(&c).unwrap();
-        cw2::set_contract_version(&mut inst.store, "crates.io:cw20-base", "0.13.4").map_err(|e| e.to_string())?;
+        cw2::set_contract_version(&mut inst.store, "crates.io:cw20-base", from).map_err(|e| e.to_string())?;
     }
     if n > 0 {
         let r = b.point(&c, json!({"all_spender_allowances": {"spender": target, "limit": 30}}))?;
@@ -628,7 +639,7 @@ fn cw20_migrated(n: usize, by_spender: bool, late: bool) -> Result<Built, String
     b.calls += 1;
     let out = b.w.migrate(&c, b"{}");
     if let Err(e) = out.res {
-        return Err(format!("migrate from 0.13.4 failed: {e}"));
+        return Err(format!("migrate from {from} failed: {e}"));
     }
     let mut expected = vec![];
     for (addr, i) in sorted_users(n) {
@@ -707,15 +718,30 @@ fn cw20_revoked(n: usize, by_spender: bool) -> Result<Built, String> {
         b.exec(addr, &c, json!({"decrease_allowance": {"spender": p, "amount": amt.to_string(), "expires": null}}))?;
         in_ref[*i] = 0;
     }
-    // partial decreases (the allowance stays)
+    // partial decreases (the allowance stays), most of them carrying a NEW expiry
+    let new_expiry = |pos: usize| match pos % 4 {
+        0 => Value::Null,
+        1 | 2 => json!({"at_height": 200_000 + pos as u64}),
+        _ => json!({"at_time": nanos(2_000_000 + pos as u64)}),
+    };
+    let mut out_exp: Vec<Option<Value>> = vec![None; n];
+    let mut in_exp: Vec<Option<Value>> = vec![None; n];
     for (pos, (addr, i)) in sorted.iter().enumerate() {
-        if pos % 7 == 3 && out_ref[*i] > 1 {
-            b.exec(&p, &c, json!({"decrease_allowance": {"spender": addr, "amount": "1", "expires": null}}))?;
+        if pos % 3 == 1 && out_ref[*i] > 1 {
+            let e = new_expiry(pos);
+            b.exec(&p, &c, json!({"decrease_allowance": {"spender": addr, "amount": "1", "expires": e}}))?;
             out_ref[*i] -= 1;
+            if !e.is_null() {
+                out_exp[*i] = Some(e);
+            }
         }
-        if pos % 7 == 5 && in_ref[*i] > 2 {
-            b.exec(addr, &c, json!({"decrease_allowance": {"spender": p, "amount": "2", "expires": null}}))?;
+        if pos % 3 == 2 && in_ref[*i] > 2 {
+            let e = new_expiry(pos + 1);
+            b.exec(addr, &c, json!({"decrease_allowance": {"spender": p, "amount": "2", "expires": e}}))?;
             in_ref[*i] -= 2;
+            if !e.is_null() {
+                in_exp[*i] = Some(e);
+            }
         }
     }
     // every other revoked pair is granted again
@@ -743,6 +769,11 @@ fn cw20_revoked(n: usize, by_spender: bool) -> Result<Built, String> {
         let r = b.point(&c, q)?;
         if r["allowance"] != json!(want.to_string()) {
             return Err(machinery("allowance (0 = revoked)", addr, &r));
+        }
+        if let Some(e) = if by_spender { &in_exp[*i] } else { &out_exp[*i] } {
+            if want != 0 && r["expires"] != *e {
+                return Err(machinery("allowance (expiry set by the partial decrease)", addr, &r));
+            }
         }
         if want != 0 {
             let item = json!({who: addr, "allowance": r["allowance"], "expires": r["expires"]});
